@@ -553,19 +553,49 @@ section FilterObjects
 open Filters
 
 /-- what `Edge.__init__` stores (`self._rise = bool(rise)` … `self._urise = bool(u_rise) if u_rise is not
-    None else self._rise` …), translated from the source, IS the model's `EdgeArgs.flags` -/
-theorem translated_filters_edge_init_is_model (a : EdgeArgs) :
-    Gen.TrFo.edgeInit a.rise a.fall a.uRise a.uFall = a.flags := by
+    None else self._rise` …), translated from the source for ARBITRARY argument objects, IS the model's
+    `EdgeArgs.flags` of their reading: truth values, `u_rise` absent iff it is the object None -/
+theorem translated_filters_edge_init_is_model (rise fall uRise uFall : Val) :
+    Gen.TrFo.edgeInit rise fall uRise uFall = (c16EdgeArgs rise fall uRise uFall).flags := by
+  unfold Gen.TrFo.edgeInit c16EdgeArgs EdgeArgs.flags
+  by_cases h : uRise = Val.none <;> simp [h]
+
+/-- in particular for the model's own arguments -/
+theorem translated_filters_edge_init_of_args (a : EdgeArgs) :
+    Gen.TrFo.edgeInit (Val.bool a.rise) (Val.bool a.fall) (c16OptBoolVal a.uRise) (Val.bool a.uFall) = a.flags := by
+  rw [translated_filters_edge_init_is_model]
   cases a with
-  | mk r f ur uf => cases ur <;> rfl
+  | mk r f ur uf =>
+    cases r <;> cases f <;> cases uf <;> cases ur with
+    | none => decide
+    | some b => cases b <;> decide
 
 /-- the defaults of the constructor's signature ARE the defaults of the model's `EdgeArgs`; hence `Edge()`
     with any subset of its arguments builds the model's filter -/
 theorem translated_filters_edge_defaults_is_model :
     Gen.TrFo.edgeInitDefaults = ({} : EdgeArgs) ∧
-    ∀ a : EdgeArgs, Filter.edge (Gen.TrFo.edgeInit a.rise a.fall a.uRise a.uFall) = Filter.mkEdge a := by
+    ∀ a : EdgeArgs, Filter.edge (Gen.TrFo.edgeInit (Val.bool a.rise) (Val.bool a.fall) (c16OptBoolVal a.uRise)
+      (Val.bool a.uFall)) = Filter.mkEdge a := by
   refine ⟨rfl, fun a => ?_⟩
-  rw [translated_filters_edge_init_is_model]; rfl
+  rw [translated_filters_edge_init_of_args]; rfl
+
+/-- `Delta.__init__`: the new object remembers `delta` and has not passed anything yet (`_last = UNDEF`):
+    it IS the model's fresh Delta filter -/
+theorem translated_filters_delta_init_is_model (δ : Rat) :
+    Gen.TrFo.deltaInit δ = (δ, Val.undef) ∧
+    Filter.delta (Gen.TrFo.deltaInit δ).1 (Gen.TrFo.deltaInit δ).2 = Filter.mkDelta δ := ⟨rfl, rfl⟩
+
+/-- the operation methods of `DataEdit` and its constructor: each appends exactly one edit function (checked by
+    the translator) and takes its parameters in the order in which the model's `EditOp` constructors and the
+    `translated_edit_…` theorems read them (`copy/rename (src, dst)`, `add_output (key, source)`,
+    `modify (key, func)`, `*args` / `**kwargs` for the rest) -/
+theorem translated_filters_op_signatures :
+    Gen.TrFo.dataEditOpSignatures =
+      [("__init__", []), ("add", ["**kwargs"]), ("add_output", ["key", "source"]), ("copy", ["src", "dst"]),
+       ("delete", ["*args"]), ("modify", ["key", "func"]), ("permit", ["*args"]), ("rename", ["src", "dst"]),
+       ("setdefault", ["**kwargs"])] ∧
+    Gen.TrFo.dataEditOpSignatures.map (·.1) = "__init__" :: Gen.dataEditOps := by
+  constructor <;> decide
 
 set_option linter.unusedSimpArgs false in
 /-- `Delta.__call__`, translated from the source (the item lookup, `self._last is UNDEF or
